@@ -153,6 +153,12 @@ func cancelExtract(c *Ctx) {
 	c.Fact("cancel.notice_inherits_request_meta", has(np, "[]string{MetaKeyProtocolVersion, MetaKeyClientInfo, MetaKeyClientCapabilities}") &&
 		has(np, "cp.SetMeta(meta)"))
 
+	// ---- the streamable client's JSON path (cancel-F2): a body read interrupted by the caller's own cancellation
+	// does not fail the connection
+	hj := c.Func("mcp", "streamableClientConn", "handleJSON")
+	c.Fact("cancel.json_body_read_cancelled_is_not_fatal", has(cw, "go c.handleJSON(ctx, requestSummary, resp)") &&
+		has(hj, "if err != nil { if ctx.Err() != nil { return } c.fail("))
+
 	// ---- notifyCancellationTimeout
 	ms := int64(-1)
 	if e := c.ValueExpr("mcp", "notifyCancellationTimeout"); e != nil {
